@@ -146,6 +146,36 @@ theorem sequence_numbers_increase (m : Nat) (b t : Int) (steps : List Step) :
     (run (mk m b t) steps).q.written.Pairwise (fun a b => a.seq < b.seq) :=
   (C24.write_numbers_increase _ (inv m b t steps).reach).1
 
+/-- **Shutdown freezes application.** Once `runQueue` has returned (`Service.Close`),
+no step applies anything more: whatever is still queued, and the request that was being
+retried, stay unapplied. This is outside the property ("while the node keeps running"):
+`all_accepted_are_applied` has `stopped = false` as a hypothesis, and this theorem shows the
+hypothesis is needed. -/
+theorem stopped_freezes_applied (v : Svc) (st : Step) (h : v.stopped = true) :
+    (next v st).applied = v.applied ∧ (next v st).done = v.done ∧ (next v st).stopped = true := by
+  cases st with
+  | queue qs =>
+    simp only [next, step]
+    split <;> simp [h]
+  | take => simp [next, step, h]
+  | execFail => simp [next, step, h]
+  | execOk => simp [next, step, h]
+  | stop => simp [next, step, h]
+
+/-- a request accepted and being retried when the service is closed is never applied -/
+theorem shutdown_strands_witness :
+    let v := run (mk 8 2 5) [.queue (.write [1] none), .queue .recv, .queue .fire, .queue .send, .take,
+      .execFail, .stop, .execOk, .queue (.write [2] none), .take, .execOk]
+    v.applied = [] ∧ v.cur.isSome = true ∧ v.q.written.length = 2 := by decide
+
+/-- **The 408 wait-timeout path only observes** (regenerated): the branch of
+`queuedExecute` taken when the wait times out makes no call on the queue, so a timed-out
+waiter's statements stay accepted and everything above (order, no drops, progress) still
+applies to them; the model needs no step for it. -/
+theorem wait_timeout_is_observer :
+    RqModel.Gen.QueueSvc.waitTimeoutBranchFound = true ∧
+    RqModel.Gen.QueueSvc.waitTimeoutBranchQueueCalls = 0 := by decide
+
 /-- **Shape of the consumer in the current sources** (regenerated): in `runQueue` the only
 `req.Close()` comes after the retry loop, the loop contains exactly one `Execute` call and
 its only `break` is under `err == nil`; `queuedExecute` writes to the queue exactly once
